@@ -77,6 +77,7 @@ DATUMS = (None, "length", "dtype", "map_keys", "map_values")
 MULTIS = (None, "first", "last", "single", "all")
 
 NULL = ("null",)
+_PY_TYPES = {"str": str, "int": int, "bool": bool}
 
 
 def leaf(cls, call, *args, **kwargs):
@@ -163,7 +164,9 @@ def build_cast(cast):
         return {}
     if not cast:
         return None
-    return {CAST_DTYPE_LOOKUP[a]: CAST_LOOKUP[(CAST_DTYPE_LOOKUP[a], CAST_DTYPE_LOOKUP[b])]
+    # the way a caller writes it through the Python API: the builtin for str -> int, the library's
+    # own helper where no builtin does the job (str -> bool)
+    return {_PY_TYPES[a]: (int if (a, b) == ("str", "int") else CAST_LOOKUP[(CAST_DTYPE_LOOKUP[a], CAST_DTYPE_LOOKUP[b])])
             for a, b in cast}
 
 
